@@ -16,7 +16,10 @@ LEAVES = ["str", "int", "num", "bool", "str:date-time", "str:date", "str:uuid", 
           # unions of models with disjoint required keys (so that first-match decoding is unambiguous), flat and nested
           "oneof_refs", "anyof_refs", "anyof_named_union", "oneof_inline_union",
           # {"$ref": X, "nullable": true}: not valid 3.0 (siblings of $ref are ignored) but written by many tools
-          "ref_obj_sibling_nullable"]
+          "ref_obj_sibling_nullable",
+          # rarely written but legal: an enum without a type, a one-value boolean enum, a 3.1 list of two types, an array
+          # without items (any items: belongs to the keyword-less-schema class)
+          "enum_untyped", "bool_enum", "type_list_str_int", "array_no_items"]
 WRAPPERS = ["array", "map", "nullable", "inline", "nullable31"]   # nullable31: the OpenAPI 3.1 spellings (type arrays / anyOf null)
 
 
@@ -35,8 +38,8 @@ def chunked(max_wrappers: int, size: int) -> list[list[tuple[int, tuple[str, ...
     """The catalogue cut into documents of `size` shapes; 3.1-spelled shapes never share a document with 3.0-spelled ones
     (a document states one OpenAPI version)."""
     cat = list(enumerate(all_shapes(max_wrappers)))
-    v30 = [x for x in cat if "nullable31" not in x[1]]
-    v31 = [x for x in cat if "nullable31" in x[1]]
+    v30 = [x for x in cat if "nullable31" not in x[1] and x[1][-1] != "type_list_str_int"]
+    v31 = [x for x in cat if "nullable31" in x[1] or x[1][-1] == "type_list_str_int"]
     return [part[i:i + size] for part in (v30, v31) for i in range(0, len(part), size)]
 
 
@@ -52,7 +55,7 @@ def features(shape: tuple[str, ...]) -> list[str]:
     for a, b in zip(shape, shape[1:]):
         f.add(f"pair_{a}>{b}")
     f.add(f"shape_{expr(shape)}")
-    if shape[-1] in ("any", "object_bare"):
+    if shape[-1] in ("any", "object_bare", "array_no_items"):
         f.add("rich_free_form_empty_schema")   # same trigger name as in the random grammar
     return sorted(f)
 
@@ -71,6 +74,15 @@ def leaf_node(leaf: str) -> tuple[dict, dict]:
         return {"type": "integer", "enum": vals}, {"kind": "enum_inline", "values": vals}
     if leaf == "ref_obj":
         return ref("Leaf"), {"kind": "ref", "target": "Leaf"}
+    if leaf == "enum_untyped":
+        vals = ["plain", "two words"]
+        return {"enum": vals}, {"kind": "enum_inline", "values": vals}
+    if leaf == "bool_enum":
+        return {"type": "boolean", "enum": [True]}, {"kind": "enum_inline", "values": [True]}
+    if leaf == "type_list_str_int":
+        return {"type": ["string", "integer"]}, {"kind": "prim_union", "of": ["string", "integer"]}
+    if leaf == "array_no_items":
+        return {"type": "array"}, {"kind": "array", "items": {"kind": "free_form", "variant": "any"}}
     if leaf == "ref_obj_sibling_nullable":
         # siblings of $ref are ignored in OpenAPI 3.0, so null is NOT a conforming value here: the expectation is a plain
         # reference (no null instances are produced); the leaf exists for what generators do when they meet the sibling
@@ -159,7 +171,7 @@ def document(shapes: list[tuple[int, tuple[str, ...]]]) -> Doc:
         mf[name] = features(sh)
         paths[f"/s{i}"] = {"get": {"operationId": f"getS{i}", "tags": ["shapes"], "responses": {
             "200": {"description": "ok", "content": {"application/json": {"schema": ref(name)}}}}}}
-    v = "3.1.0" if any("nullable31" in sh for _, sh in shapes) else "3.0.3"
+    v = "3.1.0" if any("nullable31" in sh or sh[-1] == "type_list_str_int" for _, sh in shapes) else "3.0.3"
     doc = {"openapi": v, "info": {"title": "Shapes", "version": "1"}, "paths": paths, "components": {"schemas": schemas}}
     d = Doc(doc, sexp, [], set())
     d.model_feats = mf   # type: ignore[attr-defined]
@@ -174,6 +186,8 @@ def response_document(shapes: list[tuple[int, tuple[str, ...]]]) -> Doc:
     for i, sh in shapes:
         if sh[-1] == "str:binary" and all(w.startswith("nullable") for w in sh[:-1]):
             continue      # a bare binary string as the whole body means a byte stream, not a JSON document
+        if sh[-1] == "type_list_str_int":
+            continue      # (recorded for models in C03; not repeated for bodies)
         node, e = build(sh, f"r{i}")
         seg = f"s{i}"
         paths[f"/{seg}/res"] = {"get": {"operationId": f"getShape{i}", "tags": ["shapes"], "responses": {
@@ -181,7 +195,7 @@ def response_document(shapes: list[tuple[int, tuple[str, ...]]]) -> Doc:
         ops.append({"seg": seg, "path": f"/{seg}/res", "method": "GET", "tags": ["shapes"], "operationId": f"getShape{i}", "params": [],
                     "body": None, "responses": {"200": {"content": "json", "schema": e}}, "shape": expr(sh)})
         of[seg] = features(sh)
-    v = "3.1.0" if any("nullable31" in sh for _, sh in shapes) else "3.0.3"
+    v = "3.1.0" if any("nullable31" in sh or sh[-1] == "type_list_str_int" for _, sh in shapes) else "3.0.3"
     doc = {"openapi": v, "info": {"title": "Shapes", "version": "1"}, "paths": paths, "components": {"schemas": schemas}}
     d = Doc(doc, base.sexp, ops, set())
     d.op_feats = of   # type: ignore[attr-defined]
@@ -196,6 +210,8 @@ def request_document(shapes: list[tuple[int, tuple[str, ...]]]) -> Doc:
     for i, sh in shapes:
         if sh[-1] == "str:binary" and all(w.startswith("nullable") for w in sh[:-1]):
             continue
+        if sh[-1] == "type_list_str_int":
+            continue
         node, e = build(sh, f"q{i}")
         seg = f"s{i}"
         paths[f"/{seg}/res"] = {"post": {"operationId": f"sendShape{i}", "tags": ["shapes"], "requestBody": {
@@ -204,7 +220,7 @@ def request_document(shapes: list[tuple[int, tuple[str, ...]]]) -> Doc:
                     "body": {"media": "application/json", "schema": e, "required": True}, "responses": {"204": {"content": None}},
                     "shape": expr(sh)})
         of[seg] = features(sh)
-    v = "3.1.0" if any("nullable31" in sh for _, sh in shapes) else "3.0.3"
+    v = "3.1.0" if any("nullable31" in sh or sh[-1] == "type_list_str_int" for _, sh in shapes) else "3.0.3"
     doc = {"openapi": v, "info": {"title": "Shapes", "version": "1"}, "paths": paths, "components": {"schemas": schemas}}
     d = Doc(doc, base.sexp, ops, set())
     d.op_feats = of   # type: ignore[attr-defined]
